@@ -7,7 +7,7 @@ import traceback
 
 
 def registry():
-    from .props import build, c03, c06, graph, history, static, types
+    from .props import build, c03, c06, c14, graph, history, static, types
 
     reg = {}
     for p in ("C01", "C02", "C07"):
@@ -18,6 +18,7 @@ def registry():
     reg["C08"] = graph.run
     reg["C18"] = build.run
     reg["C12"] = types.run
+    reg["C14"] = c14.run
     reg["C13"] = types.run
     reg["C19"] = build.run
     for p in ("C04", "C05", "C20"):
